@@ -69,6 +69,13 @@ Proof.
   destruct e as [e|]; [|exact H]. destruct e; simpl in P; try tauto; exact I.
 Qed.
 
+Lemma good_cerr c : okc c -> good (c, cerr c).
+Proof.
+  intro H. split; [exact H|]. cbn [fst snd]. unfold okc in H. unfold post, calm.
+  destruct (cerr c) as [e|] eqn:E; [|exact I].
+  destruct e; try tauto; try exact I.
+Qed.
+
 Lemma calm_same c c' : cerr c' = cerr c -> calm c -> calm c'.
 Proof. unfold calm. intros ->. auto. Qed.
 
@@ -234,25 +241,32 @@ Record honest (U : ufuns) : Prop := {
           match fn n a with inr (EUser m) => m = n | inr EBreak | inr ELBreak | inr ECont => False | _ => True end;
   h_mod : forall name fn n v a, u_mod U name = Some fn ->
           match fn n v a with inr (EUser m) => m = n | inr EBreak | inr ELBreak | inr ECont => False | _ => True end;
+  h_cond : forall name fn n a, u_cond U name = Some fn ->
+          match snd (fn n a) with Some (EUser m) => m = n | Some EBreak | Some ELBreak | Some ECont => False | _ => True end;
 }.
 
 Section WITH_U.
 Variable U : ufuns.
 Hypothesis HU : honest U.
 
-Lemma calm_call_cond c name al : calm c -> calm (fst (call_cond U c name al)).
-Proof.
-  intro H. unfold call_cond. destruct (u_cond U name); [|exact H].
-  pose proof (calm_collect_args al c [] H) as Q. destruct (collect_args c al []) as [c1 la]. cbn [fst] in Q.
-  destruct (calm_log_call c1 (bs "cond") name la Q) as [L _].
-  destruct (log_call c1 (bs "cond") name la) as [c2 n]. exact L.
-Qed.
-
-(* an error an honest user function returned at call n, stored in a context whose counter is S n *)
+(* a condition helper may report a failure through ctx.Err: the context is then
+   no longer calm, but the error is that of the last call *)
 Lemma okc_user c e n : ncalls c = S n ->
   match e with EUser m => m = n | EBreak | ELBreak | ECont => False | _ => True end ->
   okc (w_cerr c (Some e)).
 Proof. intros N H. unfold okc. simpl. destruct e; try tauto. subst. exact N. Qed.
+
+Lemma call_cond_post c name al : calm c ->
+  match call_cond U c name al with (c1, Some _) => okc c1 | (c1, None) => calm c1 end.
+Proof.
+  intro H. unfold call_cond. destruct (u_cond U name) as [f|] eqn:Ef; [|exact H].
+  pose proof (calm_collect_args al c [] H) as Q. destruct (collect_args c al []) as [c1 la]. cbn [fst] in Q.
+  destruct (calm_log_call c1 (bs "cond") name la Q) as [L N].
+  destruct (log_call c1 (bs "cond") name la) as [c2 n]. cbn [fst snd] in L, N.
+  pose proof (h_cond U HU _ _ n la Ef) as Hh.
+  destruct (f n la) as [b e]. cbn [fst snd] in *.
+  destruct e as [x|]; [apply okc_user with (n := n); assumption|apply calm_okc; exact L].
+Qed.
 
 Lemma okc_run_mods ms : forall c raw, calm c -> okc (fst (run_mods U ms c raw)).
 Proof.
@@ -484,29 +498,35 @@ Proof.
                             | Some b0 => let '(c'', b') := ctx_cmp c' (caseL ch) (caseOp ch) b0 in (c'', b', None, false)
                             end
                   end
-     end) with (c1, ok1, e1, ea1) => calm c1 /\ plain_opt e1 /\ (ea1 = false -> e1 = None) end).
-  { destruct (caseHlp ch) as [|h hs].
-    - cbv zeta. destruct (caseStaticL ch && caseStaticR ch); [repeat split; auto; try exact I; discriminate|].
+     end) with (c1, ok1, e1, ea1) => okc c1 /\ plain_opt e1 /\ (ea1 = false -> e1 = None) /\ (ea1 = true -> calm c1) end).
+  { assert (W : forall c1 e1 (ea1 : bool), calm c1 -> plain_opt e1 -> (ea1 = false -> e1 = None) ->
+                okc c1 /\ plain_opt e1 /\ (ea1 = false -> e1 = None) /\ (ea1 = true -> calm c1)).
+    { intros. repeat split; auto. apply calm_okc. assumption. }
+    destruct (caseHlp ch) as [|h hs].
+    - cbv zeta. destruct (caseStaticL ch && caseStaticR ch); [apply W; [exact H|exact I|discriminate]|].
       destruct (caseStaticR ch).
       + pose proof (calm_ctx_cmp c (caseL ch) (caseOp ch) (trimq (caseR ch)) H) as Q.
-        destruct (ctx_cmp c (caseL ch) (caseOp ch) (trimq (caseR ch))). repeat split; auto; exact I.
+        destruct (ctx_cmp c (caseL ch) (caseOp ch) (trimq (caseR ch))). apply W; [exact Q|exact I|reflexivity].
       + destruct (caseStaticL ch).
         * pose proof (calm_ctx_cmp c (caseR ch) (op_swap (caseOp ch)) (trimq (caseL ch)) H) as Q.
-          destruct (ctx_cmp c (caseR ch) (op_swap (caseOp ch)) (trimq (caseL ch))). repeat split; auto; exact I.
+          destruct (ctx_cmp c (caseR ch) (op_swap (caseOp ch)) (trimq (caseL ch))). apply W; [exact Q|exact I|reflexivity].
         * pose proof (calm_ctx_get c (caseR ch) [] H) as G. destruct (ctx_get c (caseR ch) []) as [c1 v1]. cbn [fst] in G.
-          destruct (cerr c1) eqn:E; [repeat split; auto; exact I|].
-          destruct (x2bytes c1 (bufX c1)); [|repeat split; auto; try exact I; discriminate].
+          destruct (cerr c1) eqn:E; [apply W; [exact G|exact I|reflexivity]|].
+          destruct (x2bytes c1 (bufX c1)); [|apply W; [exact G|exact I|discriminate]].
           pose proof (calm_ctx_cmp c1 (caseL ch) (caseOp ch) b G) as Q. destruct (ctx_cmp c1 (caseL ch) (caseOp ch) b).
-          repeat split; auto; exact I.
-    - pose proof (calm_call_cond c (h :: hs) (caseHlpArg ch) H) as C.
-      destruct (call_cond U c (h :: hs) (caseHlpArg ch)) as [c1 [b|]]; repeat split; auto; try exact I; discriminate. }
+          apply W; [exact Q|exact I|reflexivity].
+    - pose proof (call_cond_post c (h :: hs) (caseHlpArg ch) H) as C.
+      destruct (call_cond U c (h :: hs) (caseHlpArg ch)) as [c1 [b|]].
+      + split; [exact C|split; [exact I|split; [reflexivity|discriminate]]].
+      + apply W; [exact C|exact I|discriminate]. }
   revert V.
   match goal with |- match ?X with _ => _ end -> _ => destruct X as [[[c1 ok1] e1] ea1] end.
-  intros (V1 & V2 & V3).
+  intros (V0 & V2 & V3 & V4).
   destruct ea1.
-  { unfold swpost. split; [apply good_plain; assumption|discriminate]. }
+  { unfold swpost. split; [apply good_plain; [apply V4; reflexivity|exact V2]|discriminate]. }
   destruct (cerr c1) as [x|] eqn:E.
-  { unfold swpost. split; [|discriminate]. apply good_plain; [exact V1|]. unfold calm in V1. rewrite E in V1. exact V1. }
+  { unfold swpost. split; [|discriminate]. pose proof (good_cerr c1 V0) as G. rewrite E in G. exact G. }
+  assert (V1 : calm c1) by (unfold calm; rewrite E; exact I).
   destruct ok1.
   - pose proof (Hfr ch c1 V1) as F. destruct (fr ch c1) as [c2 e2]. unfold swpost. split; [exact F|discriminate].
   - apply IH; [exact V1|reflexivity].
@@ -529,12 +549,6 @@ Local Arguments branch : simpl never.
 Local Arguments log_call : simpl never.
 
 (* a loop statement: whatever ctx.Err holds at the end is what it returns *)
-Lemma good_cerr c : okc c -> good (c, cerr c).
-Proof.
-  intro H. split; [exact H|]. cbn [fst snd]. unfold okc in H. unfold post, calm.
-  destruct (cerr c) as [e|] eqn:E; [|exact I].
-  destruct e; try tauto; try exact I.
-Qed.
 
 Lemma good_loop_result c p : okc c ->
   good (if Nat.ltb (brkD c) p then w_brkD c p else c, cerr (if Nat.ltb (brkD c) p then w_brkD c p else c)).
@@ -576,19 +590,22 @@ Proof.
                         | (c', None) => (c', false, Some ECondHlpNotFound, true)
                         end
                    else (c, false, Some EUnsupported, true)
-       end) with (c1, ok1, e1, ea1) => calm c1 /\ plain_opt e1 end).
+       end) with (c1, ok1, e1, ea1) => okc c1 /\ plain_opt e1 /\ (ea1 = true -> calm c1) end).
     { destruct (condHlp r) as [|h hs].
-      - destruct (calm_node_cmp c r H) as [N1 N2]. destruct (node_cmp c r) as [[c3 o3] e3]. split; assumption.
-      - destruct (Z.eqb (condLC r) lcNone); [|split; [exact H|exact I]].
-        pose proof (calm_call_cond c (h :: hs) (condHlpArg r) H) as C.
-        destruct (call_cond U c (h :: hs) (condHlpArg r)) as [c1 [b|]]; split; try exact C; exact I. }
+      - destruct (calm_node_cmp c r H) as [N1 N2]. destruct (node_cmp c r) as [[c3 o3] e3].
+        cbn [fst snd] in N1, N2. split; [apply calm_okc; exact N1|split; [exact N2|discriminate]].
+      - destruct (Z.eqb (condLC r) lcNone); [|split; [apply calm_okc; exact H|split; [exact I|intros _; exact H]]].
+        pose proof (call_cond_post c (h :: hs) (condHlpArg r) H) as C.
+        destruct (call_cond U c (h :: hs) (condHlpArg r)) as [c1 [b|]].
+        + split; [exact C|split; [exact I|discriminate]].
+        + split; [apply calm_okc; exact C|split; [exact I|intros _; exact C]]. }
     revert V.
     match goal with |- match ?X with _ => _ end -> _ => destruct X as [[[c1 ok1] e1] ea1] end.
-    intros [V1 V2].
-    destruct ea1; [apply good_plain; assumption|].
+    intros (V0 & V2 & V4).
+    destruct ea1; [apply good_plain; [apply V4; reflexivity|exact V2]|].
     destruct (cerr c1) as [x|] eqn:E.
-    - apply good_plain; [exact V1|]. unfold calm in V1. rewrite E in V1. exact V1.
-    - apply good_branch; [exact IH|exact V1|exact V2]. }
+    - pose proof (good_cerr c1 V0) as G. rewrite E in G. exact G.
+    - apply good_branch; [exact IH| |exact V2]. unfold calm. rewrite E. exact I. }
   destruct (Z.eqb (typ r) typeCondTrue || Z.eqb (typ r) typeCondFalse || Z.eqb (typ r) typeCase || Z.eqb (typ r) typeDefault).
   { apply good_rules_lz; [exact IH|exact H]. }
   destruct (Z.eqb (typ r) typeSwitch).
@@ -721,6 +738,9 @@ Proof.
   - intros name fn n v a. cbn [testU u_mod].
     destruct (bytes_eqb name (bs "upper")); [intro E; inversion E; subst; destruct (fails fk n); auto|].
     destruct (bytes_eqb name (bs "ns::suffix") || bytes_eqb name (bs "suffix")); [intro E; inversion E; subst; destruct (fails fk n); auto|discriminate].
+  - intros name fn n a. cbn [testU u_cond].
+    destruct (bytes_eqb name (bs "isTrue")); [intro E; inversion E; subst; destruct (fails fk n); cbn [snd]; auto|].
+    destruct (bytes_eqb name (bs "ns::eq") || bytes_eqb name (bs "eq")); [intro E; inversion E; subst; destruct (fails fk n); cbn [snd]; auto|discriminate].
 Qed.
 
 (* so, for every job the harness runs: a decode that returns the injected
